@@ -189,7 +189,7 @@ theorem buildNew_meets_gen (src : Source) (wf : SrcWF src) (bs be : Int) (hb : s
       (keptM.map fun c => (liftChildP rp c).norm).Perm (keptS.map fun c => (expectChild rp' c).norm))
     (hnd : (keptS.map Child.guid).Nodup)
     (start stop : Int) (hlt : src.par.hasSeq = true → start < stop)
-    (hin : src.par.hasSeq = true → bs ≤ start ∧ stop ≤ be) :
+    (hin : src.par.hasSeq = true → (bs ≤ start ∧ stop ≤ be) ∨ Clampable src bs be start stop) :
     ∃ r, buildNew src keptM start stop = .ok r ∧ r.norm = (expectResult src start stop keptS).norm := by
   obtain ⟨rp, hsp, hn, hne, hshape⟩ := subsetParent_spec src wf bs be hb start stop hlt hin
   refine ⟨_, buildNew_eq src keptM start stop rp hsp hne hk, ?_⟩
@@ -203,7 +203,7 @@ theorem returnForIdQueries_meets_gen (src : Source) (wf : SrcWF src) (bs be : In
       (keptM.map fun c => (liftChildP rp c).norm).Perm (keptS.map fun c => (expectChild rp' c).norm))
     (hnd : (keptS.map Child.guid).Nodup)
     (hne : src.par.hasSeq = true → bs < be)
-    (hin : src.par.hasSeq = true → ∀ c ∈ keptS, bs ≤ c.start ∧ c.stop ≤ be) :
+    (hin : src.par.hasSeq = true → IdDomain src bs be keptS) :
     okIdResult src keptS (toAns (returnForIdQueries src keptM)) = true := by
   unfold okIdResult expectIdResult returnForIdQueries
   rw [specBounds_eq_self hb, needBounds_of hb]
@@ -220,17 +220,8 @@ theorem returnForIdQueries_meets_gen (src : Source) (wf : SrcWF src) (bs be : In
   obtain ⟨ns, ne⟩ := nb
   simp only []
   obtain ⟨r, hr, hrn⟩ := buildNew_meets_gen src wf bs be hb keptM keptS hk hnorm hnd ns ne
-    (fun hs => by
-      have := idBounds_inside bs be keptS (hin hs)
-      rw [hnb] at this
-      simp only [Prod.mk.injEq] at this
-      have := hne hs
-      omega)
-    (fun hs => by
-      have := idBounds_inside bs be keptS (hin hs)
-      rw [hnb] at this
-      simp only [Prod.mk.injEq] at this
-      omega)
+    (fun hs => (idDomain_bounds src bs be keptS (hne hs) ns ne hnb (hin hs)).1)
+    (fun hs => (idDomain_bounds src bs be keptS (hne hs) ns ne hnb (hin hs)).2)
   rw [hr]
   simp only [toAns, meets, beq_iff_eq]
   exact hrn
